@@ -15,6 +15,7 @@ import (
 	"os"
 	"strconv"
 	"sync"
+	"time"
 )
 
 type Ev = map[string]interface{}
@@ -195,4 +196,18 @@ func Guard(f func()) (p string) {
 	}()
 	f()
 	return ""
+}
+
+// GuardT runs f like Guard but gives up after d: a call of the code under test that does not
+// return is an observation too (event "timeout", which no specification admits). The goroutine
+// is abandoned; callers should stop driving soon after a timeout (it may spin forever).
+func GuardT(d time.Duration, f func()) (pan string, timedOut bool) {
+	done := make(chan string, 1)
+	go func() { done <- Guard(f) }()
+	select {
+	case p := <-done:
+		return p, false
+	case <-time.After(d):
+		return "", true
+	}
 }
